@@ -50,14 +50,15 @@ tvars == <<vars, l, inCall, nsSeen, verdicts>>
 TraceInit == Init /\ l = 1 /\ inCall = FALSE /\ nsSeen = FALSE /\ verdicts = <<>> /\ TLCSet(1, 0)
 
 Hidden ==
-  /\ \/ CallLock \/ CallEnqueue \/ CallUnlock \/ Backoff \/ ResubLock
+  /\ \/ (\E i \in Ap : ApplierNext(i)) \/ Backoff \/ ResubLock
      \/ SenderTakeSub \/ SenderTakeUnsub \/ SenderStop \/ SenderDefault \/ SenderResolve
      \/ WaitRecv \/ RecvFail
   /\ UNCHANGED <<l, inCall, nsSeen, verdicts>>
 
 Reset ==
   /\ subscribed' = {} /\ subCh' = <<>> /\ unsubCh' = <<>> /\ lock' = "free"
-  /\ caller' = "idle" /\ cop' = <<"none", "none">> /\ ops' = 0 /\ deps' = {}
+  /\ caller' = [i \in Ap |-> "idle"] /\ cop' = [i \in Ap |-> <<"none", "none">>] /\ aq' = [i \in Ap |-> <<>>]
+  /\ ops' = 0 /\ deps' = {}
   /\ run' = "newStream" /\ rcv' = "off" /\ snap' = {} /\ batchS' = {} /\ batchU' = {}
   /\ up' = FALSE /\ silent' = FALSE /\ srv' = {} /\ fails' = 0 /\ amb' = {}
   /\ inCall' = FALSE /\ nsSeen' = FALSE
@@ -66,7 +67,7 @@ Event(e) ==
   \/ /\ e.ev = "reset" /\ Reset /\ UNCHANGED verdicts
   \/ /\ e.ev = "call" /\ ~inCall /\ CallStart(e.s, e.kind) /\ inCall' = TRUE
      /\ UNCHANGED <<nsSeen, verdicts>>
-  \/ /\ e.ev = "ret" /\ inCall /\ caller = "idle" /\ inCall' = FALSE
+  \/ /\ e.ev = "ret" /\ inCall /\ AllIdle /\ inCall' = FALSE
      /\ UNCHANGED <<vars, nsSeen, verdicts>>
   \/ /\ e.ev = "nsReq" /\ ~nsSeen /\ run = "newStream" /\ nsSeen' = TRUE
      /\ UNCHANGED <<vars, inCall, verdicts>>
